@@ -8,13 +8,14 @@
 
    Transcribed, one action per step the C code takes that another party can observe (a system call, or a
    store to the unote's du_state / ds_pending_data):
-     _dispatch_unote_register_muxed    Register(u)      EPOLL_CTL_ADD, or MOD when the direction is not armed
+     _dispatch_unote_register_muxed    Register(u)      EPOLL_CTL_ADD, or MOD when the direction is not armed;
+                                                         link into dmn_readers_head / dmn_writers_head
      _dispatch_event_loop_drain        EpollWait        the kernel reports (interest & ready) [+ HUP], ONESHOT
                                                          disables the entry; dmn_disarmed_events |= fired
-     _dispatch_event_merge_fd          BeginIn/BeginOut (SIOCINQ / SIOCOUTQ sample), MergeUnote(u) per linked
-                                                         unote of the direction (clear DU_STATE_ARMED, store
-                                                         ds_pending_data, wake the source), BeginHup/MergeHup(u)
-                                                         + EPOLL_CTL_DEL, else Rearm: EPOLL_CTL_MOD(armed events)
+     _dispatch_event_merge_fd          BeginIn/BeginOut (SIOCINQ / SIOCOUTQ sample), MergeUnote(u) per unote linked
+                                                         in the direction's list (clear DU_STATE_ARMED, store
+                                                         ds_pending_data, wake the source), BeginHup/MarkDelete(u)/MergeHup(u)/
+                                                         HupDel (EPOLL_CTL_DEL), else Rearm: EPOLL_CTL_MOD(armed events)
      _dispatch_unote_resume_muxed      ResumeMux(u)     clear the direction's disarmed bit, MOD(armed events)
      _dispatch_unote_unregister_muxed  Unregister(u) (cancel, on the manager) / AckDelete(u) (hang-up
                                                          acknowledged on the target queue): MOD or DEL + dispose
@@ -30,11 +31,15 @@
    reports mask & readiness (level triggered, evaluated at the wait) plus EPOLLHUP regardless of the mask, and
    with EPOLLONESHOT disables the entry until the next MOD.
 
-   Fix = FALSE is the code as pinned: disarming is per DIRECTION.  With two sources of the same direction
-   the first one to re-arm (or a late registration) re-enables the direction for its sibling whose event
-   is still unconsumed - the invariants below then fail in the two-reader configurations (expected
-   counterexample, see MUX.py).  Fix = TRUE models per-unote arming (deliver only to armed unotes, re-arm
-   sets DU_STATE_ARMED again, like the kevent backend does). *)
+   Two deviations of the code as pinned from the properties below are switchable (FALSE = pinned):
+   ListFix  _dispatch_unote_register_muxed chooses the list by `events & EPOLLOUT` AFTER it has widened `events`
+            with the muxnote's armed events: a READ unote that joins while EPOLLOUT is armed is linked into the
+            WRITERS list - it is handed EPOLLOUT deliveries as read events and never sees EPOLLIN (which then
+            stays disarmed: nobody in the readers list re-arms it).  TRUE: the list follows the unote's own filter.
+   Fix      disarming is per DIRECTION: with two unotes of one direction the first to re-arm (or a late
+            registration) re-enables the direction for its sibling whose event is still unconsumed.
+            TRUE: per-unote arming (deliver only to armed unotes; re-arm sets DU_STATE_ARMED again, as the
+            kevent backend does). *)
 EXTENDS Integers, FiniteSets, TLC
 
 CONSTANTS Readers,      \* unotes of DISPATCH_SOURCE_TYPE_READ on the descriptor
@@ -44,8 +49,10 @@ CONSTANTS Readers,      \* unotes of DISPATCH_SOURCE_TYPE_READ on the descriptor
           MaxFills,     \* how often a write handler fills the send buffer
           MaxSusp,      \* dispatch_suspend calls (each followed, eventually, by its dispatch_resume)
           MaxCancel,    \* dispatch_source_cancel calls
+          MaxRecreate,  \* new sources created in the place of a cancelled one
           AllowHup,     \* the peer may close
-          Fix,          \* FALSE: pinned (per-direction disarm); TRUE: per-unote arming
+          ListFix,      \* see above
+          Fix,          \* see above
           Mut           \* "none" or a spec mutation (non-vacuity)
 
 Unotes == Readers \cup Writers
@@ -53,40 +60,45 @@ Dirs == {"in", "out"}
 Dir(u) == IF u \in Readers THEN "in" ELSE "out"
 MaxAvail == 2
 None == -1
-EOF == 9
+EOF == -2
 
 VARIABLES
   \* kernel: the epoll entry of the descriptor
-  kreg, kmask, ken,
+  kreg, kmask, ken, lctl,
   \* environment: bytes readable, send buffer has room, peer closed; bounds
   avail, space, hup, nw, nf,
-  \* the muxnote
-  dmn, dEvents, dDis, members, hupDel,
+  \* the muxnote: exists, dmn_events, dmn_disarmed_events (EPOLLIN / EPOLLOUT part), the two lists
+  dmn, dEvents, dDis, rl, wl, hupDel,
   \* the manager inside _dispatch_event_merge_fd
   mpc, fired, todo, mdata,
   \* per unote / source
-  ust, uarm, pend, hs, hdata, susp, canc, nsusp, ncanc,
+  ust, uarm, pend, hs, hdata, susp, canc, nsusp, ncanc, nrecr,
   \* ghosts
-  uncons, viol, ninv
+  uncons, enabler, viol, ninv
 
 kvars == <<kreg, kmask, ken>>
 evars == <<avail, space, hup, nw, nf>>
-dvars == <<dmn, dEvents, dDis, members, hupDel>>
+dvars == <<dmn, dEvents, dDis, rl, wl, hupDel>>
 mvars == <<mpc, fired, todo, mdata>>
-uvars == <<ust, uarm, pend, hs, hdata, susp, canc, nsusp, ncanc>>
-gvars == <<uncons, viol, ninv>>
-vars == <<kvars, evars, dvars, mvars, uvars, gvars>>
+uvars == <<ust, uarm, pend, hs, hdata, susp, canc, nsusp, ncanc, nrecr>>
+gvars == <<uncons, enabler, viol, ninv>>
+vars == <<kvars, lctl, evars, dvars, mvars, uvars, gvars>>
 
+members == rl \cup wl
+ListOf(d) == IF d = "in" THEN rl ELSE wl
 Armed == dEvents \ dDis                       \* _dispatch_muxnote_armed_events (EPOLLIN / EPOLLOUT part)
 ArmedOf(ev, dis) == ev \ dis
 Ready == (IF avail > 0 \/ hup THEN {"in"} ELSE {}) \cup (IF space THEN {"out"} ELSE {})
 SoleDrainer(u) == Drainers = {u}
 Min(a, b) == IF a < b THEN a ELSE b
+Viols == {"double", "double_sibling", "ctlmask", "empty_at_start", "wrongdir"}
 
 TypeOK ==
   /\ kreg \in BOOLEAN /\ kmask \subseteq Dirs /\ ken \in BOOLEAN
+  /\ lctl \in [op : {"none", "add", "mod", "del"}, mask : SUBSET Dirs]
   /\ avail \in 0..MaxAvail /\ space \in BOOLEAN /\ hup \in BOOLEAN /\ nw \in 0..MaxWrites /\ nf \in 0..MaxFills
-  /\ dmn \in BOOLEAN /\ dEvents \subseteq Dirs /\ dDis \subseteq Dirs /\ members \subseteq Unotes /\ hupDel \in BOOLEAN
+  /\ dmn \in BOOLEAN /\ dEvents \subseteq Dirs /\ dDis \subseteq Dirs /\ rl \subseteq Unotes /\ wl \subseteq Unotes
+  /\ hupDel \in BOOLEAN
   /\ mpc \in {"idle", "in", "in_m", "out", "out_m", "hup", "hup_m", "rearm"}
   /\ fired \subseteq (Dirs \cup {"hup"}) /\ todo \subseteq Unotes /\ mdata \in 0..MaxAvail
   /\ ust \in [Unotes -> {"init", "want", "reg", "ndel", "gone"}]
@@ -95,72 +107,95 @@ TypeOK ==
   /\ hs \in [Unotes -> {"idle", "run", "done"}]
   /\ hdata \in [Unotes -> {None, EOF} \cup (0..MaxAvail)]
   /\ susp \in [Unotes -> BOOLEAN] /\ canc \in [Unotes -> BOOLEAN]
-  /\ nsusp \in 0..MaxSusp /\ ncanc \in 0..MaxCancel
-  /\ uncons \in [Unotes -> BOOLEAN] /\ viol \subseteq {"double", "ctlmask", "empty_at_start"}
+  /\ nsusp \in 0..MaxSusp /\ ncanc \in 0..MaxCancel /\ nrecr \in 0..MaxRecreate
+  /\ uncons \in [Unotes -> BOOLEAN] /\ enabler \in [Dirs -> Unotes \cup {"none"}] /\ viol \subseteq Viols
   /\ ninv \in [Unotes -> 0..(MaxWrites + 3)]
 
 Init ==
-  /\ kreg = FALSE /\ kmask = {} /\ ken = FALSE
+  /\ kreg = FALSE /\ kmask = {} /\ ken = FALSE /\ lctl = [op |-> "none", mask |-> {}]
   /\ avail = 0 /\ space = TRUE /\ hup = FALSE /\ nw = 0 /\ nf = 0
-  /\ dmn = FALSE /\ dEvents = {} /\ dDis = {} /\ members = {} /\ hupDel = FALSE
+  /\ dmn = FALSE /\ dEvents = {} /\ dDis = {} /\ rl = {} /\ wl = {} /\ hupDel = FALSE
   /\ mpc = "idle" /\ fired = {} /\ todo = {} /\ mdata = 0
   /\ ust = [u \in Unotes |-> "init"] /\ uarm = [u \in Unotes |-> FALSE]
   /\ pend = [u \in Unotes |-> None] /\ hs = [u \in Unotes |-> "idle"] /\ hdata = [u \in Unotes |-> None]
-  /\ susp = [u \in Unotes |-> FALSE] /\ canc = [u \in Unotes |-> FALSE] /\ nsusp = 0 /\ ncanc = 0
-  /\ uncons = [u \in Unotes |-> FALSE] /\ viol = {} /\ ninv = [u \in Unotes |-> 0]
+  /\ susp = [u \in Unotes |-> FALSE] /\ canc = [u \in Unotes |-> FALSE] /\ nsusp = 0 /\ ncanc = 0 /\ nrecr = 0
+  /\ uncons = [u \in Unotes |-> FALSE] /\ enabler = [d \in Dirs |-> "none"] /\ viol = {}
+  /\ ninv = [u \in Unotes |-> 0]
 
 (* ------------------------------ the kernel's side of epoll_ctl ------------------------------ *)
-KAdd(mask) == kreg' = TRUE /\ kmask' = mask /\ ken' = TRUE
+\* lctl (ghost): the system call the last step made, if any - what trace validation compares a recorded
+\* epoll_ctl with
+NoCtl == [op |-> "none", mask |-> {}]
+KNone == UNCHANGED <<kreg, kmask, ken>> /\ lctl' = NoCtl
+KAdd(mask) == kreg' = TRUE /\ kmask' = mask /\ ken' = TRUE /\ lctl' = [op |-> "add", mask |-> mask]
 \* EPOLL_CTL_MOD on an entry that is gone fails with ENOENT (only after the hang-up path deleted it)
-KMod(mask) == IF kreg THEN kmask' = mask /\ ken' = TRUE /\ UNCHANGED kreg ELSE UNCHANGED kvars
-KDel == kreg' = FALSE /\ kmask' = {} /\ ken' = FALSE
+KMod(mask) == /\ IF kreg THEN kmask' = mask /\ ken' = TRUE /\ UNCHANGED kreg ELSE UNCHANGED <<kreg, kmask, ken>>
+              /\ lctl' = [op |-> "mod", mask |-> mask]
+KDel == kreg' = FALSE /\ kmask' = {} /\ ken' = FALSE /\ lctl' = [op |-> "del", mask |-> {}]
 \* every mask handed to the kernel must be the armed set the muxnote holds after the call's own bookkeeping
 CtlChk(mask, ev, dis) == viol' = IF mask = ArmedOf(ev, dis) THEN viol ELSE viol \cup {"ctlmask"}
 
 (* ------------------------------ environment and client ------------------------------ *)
 PeerWrite == /\ nw < MaxWrites /\ ~hup
              /\ avail' = Min(avail + 1, MaxAvail) /\ nw' = nw + 1
-             /\ UNCHANGED <<space, hup, nf, kvars, dvars, mvars, uvars, gvars>>
+             /\ UNCHANGED <<space, hup, nf, dvars, mvars, uvars, gvars>> /\ KNone
 PeerDrain == /\ ~space /\ space' = TRUE
-             /\ UNCHANGED <<avail, hup, nw, nf, kvars, dvars, mvars, uvars, gvars>>
+             /\ UNCHANGED <<avail, hup, nw, nf, dvars, mvars, uvars, gvars>> /\ KNone
 PeerClose == /\ AllowHup /\ ~hup /\ hup' = TRUE
-             /\ UNCHANGED <<avail, space, nw, nf, kvars, dvars, mvars, uvars, gvars>>
+             /\ UNCHANGED <<avail, space, nw, nf, dvars, mvars, uvars, gvars>> /\ KNone
 
 Activate(u) == /\ ust[u] = "init" /\ ust' = [ust EXCEPT ![u] = "want"]
-               /\ UNCHANGED <<uarm, pend, hs, hdata, susp, canc, nsusp, ncanc, kvars, evars, dvars, mvars, gvars>>
+               /\ UNCHANGED <<uarm, pend, hs, hdata, susp, canc, nsusp, ncanc, nrecr, evars, dvars, mvars, gvars>> /\ KNone
 Suspend(u) == /\ ~susp[u] /\ nsusp < MaxSusp /\ ust[u] \in {"reg", "ndel"}
               /\ susp' = [susp EXCEPT ![u] = TRUE] /\ nsusp' = nsusp + 1
-              /\ UNCHANGED <<ust, uarm, pend, hs, hdata, canc, ncanc, kvars, evars, dvars, mvars, gvars>>
+              /\ UNCHANGED <<ust, uarm, pend, hs, hdata, canc, ncanc, nrecr, evars, dvars, mvars, gvars>> /\ KNone
 ResumeSrc(u) == /\ susp[u] /\ susp' = [susp EXCEPT ![u] = FALSE]
-                /\ UNCHANGED <<ust, uarm, pend, hs, hdata, canc, nsusp, ncanc, kvars, evars, dvars, mvars, gvars>>
-Cancel(u) == /\ ~canc[u] /\ ncanc < MaxCancel /\ ust[u] \in {"reg", "ndel"}
-             /\ canc' = [canc EXCEPT ![u] = TRUE] /\ ncanc' = ncanc + 1
-             /\ UNCHANGED <<ust, uarm, pend, hs, hdata, susp, nsusp, kvars, evars, dvars, mvars, gvars>>
+                /\ UNCHANGED <<ust, uarm, pend, hs, hdata, canc, nsusp, ncanc, nrecr, evars, dvars, mvars, gvars>> /\ KNone
+CancelRaw(u) == /\ ~canc[u] /\ ust[u] \in {"reg", "ndel", "want"}
+                /\ canc' = [canc EXCEPT ![u] = TRUE]
+                /\ UNCHANGED <<ust, uarm, pend, hs, hdata, susp, nsusp, nrecr, evars, dvars, mvars, gvars>> /\ KNone
+Cancel(u) == ncanc < MaxCancel /\ ust[u] \in {"reg", "ndel"} /\ ncanc' = ncanc + 1 /\ CancelRaw(u)
+\* a new source on the same descriptor in the place of one that is gone (dispatch_source_create + activate later)
+RecreateRaw(u) ==
+  /\ ust[u] = "gone" /\ hs[u] = "idle"
+  /\ ust' = [ust EXCEPT ![u] = "init"] /\ uarm' = [uarm EXCEPT ![u] = FALSE] /\ pend' = [pend EXCEPT ![u] = None]
+  /\ canc' = [canc EXCEPT ![u] = FALSE] /\ susp' = [susp EXCEPT ![u] = FALSE]
+  /\ uncons' = [uncons EXCEPT ![u] = FALSE]
+  /\ UNCHANGED <<hs, hdata, nsusp, ncanc, enabler, viol, ninv, evars, dvars, mvars>> /\ KNone
+Recreate(u) == nrecr < MaxRecreate /\ nrecr' = nrecr + 1 /\ RecreateRaw(u)
 
 (* ------------------------------ _dispatch_unote_register_muxed ------------------------------ *)
+\* `events` as the C code holds it when it picks the list (widened in the MOD branch only)
+LinkInto(u, events) ==
+  LET toW == IF ListFix THEN Dir(u) = "out" ELSE "out" \in events
+  IN /\ wl' = IF toW THEN wl \cup {u} ELSE wl
+     /\ rl' = IF toW THEN rl ELSE rl \cup {u}
 Register(u) ==
   /\ mpc = "idle" /\ ust[u] = "want"
   /\ LET d == Dir(u) IN
      IF dmn THEN
        IF d \notin Armed THEN           \* events & ~_dispatch_muxnote_armed_events(dmn)
          IF kreg THEN
-           LET mask == Armed \cup {d}
+           LET mask == Armed \cup {d}                 \* events |= armed events
                ev == dEvents \cup mask                \* dmn_events |= events
-               dis == IF Mut = "register_keeps_disarmed" THEN dDis ELSE dDis \ mask   \* dmn_disarmed_events &= ~events
+               dis == dDis \ mask                     \* dmn_disarmed_events &= ~events
            IN /\ KMod(mask) /\ CtlChk(mask, ev, dis)
               /\ dEvents' = ev /\ dDis' = dis
-              /\ members' = members \cup {u} /\ UNCHANGED <<dmn, hupDel>>
+              /\ LinkInto(u, mask) /\ UNCHANGED <<dmn, hupDel>>
+              /\ enabler' = [enabler EXCEPT ![d] = u]
               /\ ust' = [ust EXCEPT ![u] = "reg"] /\ uarm' = [uarm EXCEPT ![u] = TRUE]
          ELSE   \* the MOD fails (entry deleted by a hang-up): registration fails, the source is finalized
-           /\ ust' = [ust EXCEPT ![u] = "gone"] /\ UNCHANGED <<uarm, kvars, dvars, viol>>
+           /\ ust' = [ust EXCEPT ![u] = "gone"] /\ UNCHANGED <<uarm, dvars, viol, enabler>> /\ KNone
        ELSE     \* the direction is already armed: no system call
-         /\ members' = members \cup {u} /\ UNCHANGED <<dmn, dEvents, dDis, hupDel, kvars, viol>>
+         /\ LinkInto(u, {d}) /\ UNCHANGED <<dmn, dEvents, dDis, hupDel, viol, enabler>> /\ KNone
          /\ ust' = [ust EXCEPT ![u] = "reg"] /\ uarm' = [uarm EXCEPT ![u] = TRUE]
      ELSE       \* _dispatch_muxnote_create + EPOLL_CTL_ADD
        /\ KAdd({d}) /\ CtlChk({d}, {d}, {})
-       /\ dmn' = TRUE /\ dEvents' = {d} /\ dDis' = {} /\ members' = {u} /\ hupDel' = FALSE
+       /\ dmn' = TRUE /\ dEvents' = {d} /\ dDis' = {} /\ hupDel' = FALSE
+       /\ rl' = (IF d = "in" THEN {u} ELSE {}) /\ wl' = (IF d = "out" THEN {u} ELSE {})
+       /\ enabler' = [dd \in Dirs |-> IF dd = d THEN u ELSE "none"]
        /\ ust' = [ust EXCEPT ![u] = "reg"] /\ uarm' = [uarm EXCEPT ![u] = TRUE]
-  /\ UNCHANGED <<pend, hs, hdata, susp, canc, nsusp, ncanc, evars, mvars, uncons, ninv>>
+  /\ UNCHANGED <<pend, hs, hdata, susp, canc, nsusp, ncanc, nrecr, evars, mvars, uncons, ninv>>
 
 (* ------------------------------ _dispatch_event_loop_drain: one epoll_wait result for this descriptor ------- *)
 NextPhase(after, f) ==
@@ -171,20 +206,20 @@ NextPhase(after, f) ==
 \* f: what the kernel reports.  The kernel side (enabled, within the interest mask or HUP) is the guard;
 \* the muxnote side is the first statement of _dispatch_event_merge_fd: dmn_disarmed_events |= events & (IN|OUT)
 EpollWaitF(f) ==
-  /\ mpc = "idle" /\ kreg /\ ken /\ f # {} /\ f \subseteq (kmask \cup {"hup"})
-  /\ ken' = FALSE /\ UNCHANGED <<kreg, kmask>>                 \* EPOLLONESHOT
+  /\ mpc = "idle" /\ kreg /\ ken /\ f \subseteq (kmask \cup {"hup"})
+  /\ ken' = FALSE /\ UNCHANGED <<kreg, kmask>> /\ lctl' = NoCtl      \* EPOLLONESHOT
   /\ fired' = f /\ dDis' = dDis \cup (f \cap Dirs)
   /\ mpc' = NextPhase("start", f) /\ UNCHANGED <<todo, mdata>>
-  /\ UNCHANGED <<dmn, dEvents, members, hupDel, evars, uvars, gvars>>
-EpollWait == EpollWaitF((kmask \cap Ready) \cup (IF hup THEN {"hup"} ELSE {}))
+  /\ UNCHANGED <<dmn, dEvents, rl, wl, hupDel, evars, uvars, gvars>>
+EpollWait == LET f == (kmask \cap Ready) \cup (IF hup THEN {"hup"} ELSE {}) IN f # {} /\ EpollWaitF(f)
 
-\* data = _dispatch_get_buffer_size(): sampled AFTER the wait returned; walks the direction's list
+\* data = _dispatch_get_buffer_size(): sampled AFTER the wait returned; then the direction's list is walked
 BeginDir(d, sample) ==
   /\ mpc = d
-  /\ LET l == {u \in members : Dir(u) = d} IN
+  /\ LET l == ListOf(d) IN
        /\ mdata' = sample /\ todo' = l
        /\ mpc' = IF l = {} THEN NextPhase(d, fired) ELSE (IF d = "in" THEN "in_m" ELSE "out_m")
-  /\ UNCHANGED <<fired, kvars, evars, dvars, uvars, gvars>>
+  /\ UNCHANGED <<fired, evars, dvars, uvars, gvars>> /\ KNone
 BeginIn == BeginDir("in", avail)
 BeginOut == BeginDir("out", 1)
 
@@ -192,30 +227,40 @@ BeginOut == BeginDir("out", 1)
 MergeUnoteD(u, data) ==
   /\ mpc \in {"in_m", "out_m"} /\ u \in todo
   /\ todo' = todo \ {u}
-  /\ mpc' = IF todo' = {} THEN NextPhase(IF mpc = "in_m" THEN "in" ELSE "out", fired) ELSE mpc
-  /\ IF Fix /\ ~uarm[u]
-     THEN UNCHANGED <<uarm, pend, uncons, viol>>            \* per-unote arming: its previous event is not consumed yet
-     ELSE /\ uarm' = [uarm EXCEPT ![u] = FALSE]
-          /\ pend' = [pend EXCEPT ![u] = data]
-          /\ viol' = IF uncons[u] THEN viol \cup {"double"} ELSE viol
-          /\ uncons' = [uncons EXCEPT ![u] = TRUE]
-  /\ UNCHANGED <<fired, mdata, ust, hs, hdata, susp, canc, nsusp, ncanc, ninv, kvars, evars, dvars>>
+  /\ LET d == IF mpc = "in_m" THEN "in" ELSE "out" IN
+     /\ mpc' = IF todo' = {} THEN NextPhase(d, fired) ELSE mpc
+     /\ IF Fix /\ ~uarm[u]
+        THEN UNCHANGED <<uarm, pend, uncons, viol>>            \* per-unote arming: its previous event is not consumed yet
+        ELSE /\ uarm' = [uarm EXCEPT ![u] = FALSE]
+             /\ pend' = [pend EXCEPT ![u] = data]
+             /\ viol' = viol \cup (IF Dir(u) # d THEN {"wrongdir"} ELSE {})
+                             \cup (IF uncons[u] /\ Dir(u) = d
+                                   THEN (IF enabler[d] \notin {u, "none"} THEN {"double_sibling"} ELSE {"double"})
+                                   ELSE {})
+             /\ uncons' = [uncons EXCEPT ![u] = TRUE]
+  /\ UNCHANGED <<fired, mdata, ust, hs, hdata, susp, canc, nsusp, ncanc, nrecr, enabler, ninv, evars, dvars>> /\ KNone
 MergeUnote(u) == MergeUnoteD(u, mdata)
 
 \* SR-9033: EPOLLHUP is unmaskable: every linked unote gets NEEDS_DELETE + an EOF event, the entry is deleted
 BeginHup ==
-  /\ mpc = "hup" /\ todo' = members
-  /\ IF members = {} THEN /\ KDel /\ mpc' = "idle" /\ hupDel' = TRUE
-                     ELSE /\ mpc' = "hup_m" /\ UNCHANGED <<kvars, hupDel>>
-  /\ UNCHANGED <<fired, mdata, dmn, dEvents, dDis, members, evars, uvars, gvars>>
-MergeHup(u) ==
-  /\ mpc = "hup_m" /\ u \in todo
-  /\ todo' = todo \ {u}
+  /\ mpc = "hup" /\ todo' = members /\ mpc' = "hup_m"
+  /\ UNCHANGED <<fired, mdata, evars, dvars, uvars, gvars>> /\ KNone
+\* _dispatch_event_merge_hangup, first half: du_state := NEEDS_DELETE, not armed.  From here on the source's invoke
+\* on its target queue may acknowledge the deletion (AckDelete) - also before the second half has run
+MarkDelete(u) ==
+  /\ mpc = "hup_m" /\ u \in todo /\ ust[u] = "reg"
   /\ ust' = [ust EXCEPT ![u] = "ndel"] /\ uarm' = [uarm EXCEPT ![u] = FALSE]
+  /\ UNCHANGED <<mpc, fired, todo, mdata, pend, hs, hdata, susp, canc, nsusp, ncanc, nrecr, evars, dvars, gvars>> /\ KNone
+\* second half: ds_pending_data := ~0 (end of file), dux_merge_evt (wake the source)
+MergeHup(u) ==
+  /\ mpc = "hup_m" /\ u \in todo /\ ust[u] # "reg"
+  /\ todo' = todo \ {u}
   /\ pend' = [pend EXCEPT ![u] = EOF]
-  /\ IF todo' = {} THEN /\ KDel /\ mpc' = "idle" /\ hupDel' = TRUE     \* epoll_ctl(DEL); return (no re-arm)
-                   ELSE UNCHANGED <<kvars, mpc, hupDel>>
-  /\ UNCHANGED <<fired, mdata, dmn, dEvents, dDis, members, hs, hdata, susp, canc, nsusp, ncanc, evars, gvars>>
+  /\ UNCHANGED <<mpc, fired, mdata, ust, uarm, hs, hdata, susp, canc, nsusp, ncanc, nrecr, evars, dvars, gvars>> /\ KNone
+HupDel ==     \* epoll_ctl(EPOLL_CTL_DEL); return (no re-arm)
+  /\ mpc = "hup_m" /\ todo = {}
+  /\ KDel /\ mpc' = "idle" /\ hupDel' = dmn
+  /\ UNCHANGED <<fired, todo, mdata, dmn, dEvents, dDis, rl, wl, evars, uvars, gvars>>
 
 \* events = _dispatch_muxnote_armed_events(dmn); if (events) _dispatch_epoll_update(dmn, events, EPOLL_CTL_MOD)
 \* (events always holds EPOLLFREE | EPOLLONESHOT, so the MOD is made even when no direction is armed)
@@ -223,78 +268,82 @@ Rearm ==
   /\ mpc = "rearm"
   /\ LET mask == IF Mut = "rearm_fired_now" THEN dEvents \ (fired \cap Dirs) ELSE Armed
          skip == (Mut = "rearm_fired_now" /\ mask = {}) \/ Mut = "no_rearm"
-     IN IF skip THEN UNCHANGED <<kvars, viol>>
+     IN IF skip THEN UNCHANGED <<viol>> /\ KNone
         ELSE KMod(mask) /\ CtlChk(mask, dEvents, dDis)
-  /\ mpc' = "idle" /\ UNCHANGED <<fired, todo, mdata, evars, dvars, uvars, uncons, ninv>>
+  /\ mpc' = "idle" /\ UNCHANGED <<fired, todo, mdata, evars, dvars, uvars, uncons, enabler, ninv>>
 
 (* ------------------------------ _dispatch_unote_resume_muxed (the re-arm pass of the source, on the manager) -- *)
-\* reached from _dispatch_source_invoke2 on the manager when the unote needs a re-arm, nothing is pending
-\* and the source is neither suspended nor cancelled
-ResumeMux(u) ==
-  /\ mpc = "idle" /\ ust[u] = "reg" /\ hs[u] = "idle" /\ pend[u] = None /\ ~susp[u] /\ ~canc[u]
+\* reached from _dispatch_source_invoke2 on the manager when the unote needs a re-arm and nothing is pending
+ResumeMuxRaw(u) ==
+  /\ mpc = "idle" /\ ust[u] = "reg" /\ hs[u] = "idle" /\ pend[u] = None
   /\ ~uarm[u] /\ uncons[u]
   /\ LET d == Dir(u) IN
      IF d \in dDis THEN
        LET dis == dDis \ {d}
            mask == ArmedOf(dEvents, dis)
-       IN /\ dDis' = dis
-          /\ IF Mut = "resume_no_mod" THEN UNCHANGED <<kvars, viol>>
+       IN /\ dDis' = dis /\ enabler' = [enabler EXCEPT ![d] = u]
+          /\ IF Mut = "resume_no_mod" THEN UNCHANGED <<viol>> /\ KNone
              ELSE KMod(mask) /\ CtlChk(mask, dEvents, dis)
-     ELSE UNCHANGED <<dDis, kvars, viol>>
+     ELSE UNCHANGED <<dDis, viol, enabler>> /\ KNone
   /\ uarm' = [uarm EXCEPT ![u] = Fix]            \* pinned: DU_STATE_ARMED is never set again on this backend
   /\ uncons' = [uncons EXCEPT ![u] = FALSE]
-  /\ UNCHANGED <<dmn, dEvents, members, hupDel, ust, pend, hs, hdata, susp, canc, nsusp, ncanc, ninv, evars, mvars>>
+  /\ UNCHANGED <<dmn, dEvents, rl, wl, hupDel, ust, pend, hs, hdata, susp, canc, nsusp, ncanc, nrecr, ninv, evars, mvars>>
+\* ... and the source is neither suspended nor cancelled
+ResumeMux(u) == ~susp[u] /\ ~canc[u] /\ ResumeMuxRaw(u)
 
 (* ------------------------------ _dispatch_unote_unregister_muxed ------------------------------ *)
 \* the muxnote bookkeeping, transcribed statement by statement
 UnregMux(u) ==
-  LET m1 == members \ {u}
-      emptyDirs == {d \in Dirs : {x \in m1 : Dir(x) = d} = {}}
+  LET r1 == rl \ {u}
+      w1 == wl \ {u}
+      emptyDirs == (IF r1 = {} THEN {"in"} ELSE {}) \cup (IF w1 = {} THEN {"out"} ELSE {})
       events == dEvents \ emptyDirs                       \* local `events`
       dis1 == dDis \ emptyDirs                            \* if (dmn_disarmed_events & D) { both cleared }
       ev1 == dEvents \ (emptyDirs \cap dDis)
-  IN /\ members' = m1
+  IN /\ rl' = r1 /\ wl' = w1
      /\ IF events # {} THEN
           IF Mut = "unreg_keeps_mask" THEN
-            /\ dEvents' = events /\ dDis' = dis1 /\ UNCHANGED <<kvars, viol, dmn, hupDel>>
+            /\ dEvents' = events /\ dDis' = dis1 /\ UNCHANGED <<viol, dmn, hupDel>> /\ KNone
           ELSE IF events # ArmedOf(ev1, dis1) THEN
             LET mask == ArmedOf(events, dis1) IN          \* dmn_events = events; MOD(armed)
             /\ dEvents' = events /\ dDis' = dis1
             /\ KMod(mask) /\ CtlChk(mask, events, dis1) /\ UNCHANGED <<dmn, hupDel>>
-          ELSE /\ dEvents' = ev1 /\ dDis' = dis1 /\ UNCHANGED <<kvars, viol, dmn, hupDel>>
+          ELSE /\ dEvents' = ev1 /\ dDis' = dis1 /\ UNCHANGED <<viol, dmn, hupDel>> /\ KNone
         ELSE   \* last unote: EPOLL_CTL_DEL, _dispatch_muxnote_dispose
-          /\ (IF Mut = "last_leaves_no_del" THEN UNCHANGED kvars ELSE KDel)
+          /\ (IF Mut = "last_leaves_no_del" THEN KNone ELSE KDel)
           /\ dmn' = FALSE /\ dEvents' = {} /\ dDis' = {} /\ hupDel' = FALSE /\ UNCHANGED viol
 
 \* cancel path: _dispatch_source_invoke2 on the manager, the handler is not running (drain lock)
-Unregister(u) ==
-  /\ mpc = "idle" /\ canc[u] /\ ust[u] = "reg" /\ hs[u] = "idle" /\ ~susp[u]
+UnregisterRaw(u) ==
+  /\ mpc = "idle" /\ canc[u] /\ ust[u] = "reg" /\ hs[u] = "idle"
   /\ UnregMux(u)
   /\ ust' = [ust EXCEPT ![u] = "gone"] /\ uarm' = [uarm EXCEPT ![u] = FALSE]
   /\ pend' = [pend EXCEPT ![u] = None]          \* a cancelled source never latches again
   /\ uncons' = [uncons EXCEPT ![u] = FALSE]
-  /\ UNCHANGED <<hs, hdata, susp, canc, nsusp, ncanc, ninv, evars, mvars>>
+  /\ UNCHANGED <<hs, hdata, susp, canc, nsusp, ncanc, nrecr, enabler, ninv, evars, mvars>>
+Unregister(u) == ~susp[u] /\ UnregisterRaw(u)
 
 \* hang-up path: DU_STATE_NEEDS_DELETE is acknowledged by the source's invoke on its TARGET queue, which calls
 \* _dispatch_unote_unregister_muxed there (not on the manager; the data race on the muxnote lists that this
 \* implies in C is not visible at this level of atomicity)
-AckDelete(u) ==
-  /\ ust[u] = "ndel" /\ hs[u] = "idle" /\ ~susp[u]
-  /\ mpc \notin {"hup_m"} \/ u \notin todo
+AckDeleteRaw(u) ==
+  /\ ust[u] = "ndel" /\ hs[u] = "idle"
   /\ UnregMux(u)
   /\ ust' = [ust EXCEPT ![u] = "gone"] /\ uncons' = [uncons EXCEPT ![u] = FALSE]
-  /\ todo' = todo \ {u} /\ UNCHANGED <<mpc, fired, mdata>>
-  /\ UNCHANGED <<uarm, pend, hs, hdata, susp, canc, nsusp, ncanc, ninv, evars>>
+  /\ UNCHANGED <<uarm, pend, hs, hdata, susp, canc, nsusp, ncanc, nrecr, enabler, ninv, evars, mvars>>
+AckDelete(u) == ~susp[u] /\ AckDeleteRaw(u)
 
 (* ------------------------------ the event handler on the target queue ------------------------------ *)
-\* _dispatch_source_latch_and_call: ds_data = ~xchg(ds_pending_data, 0); callout
-HStartRaw(u) ==
+\* _dispatch_source_latch_and_call: ds_data = ~xchg(ds_pending_data, 0); callout.  `empty`: what a consuming
+\* reader finds when it looks at the descriptor at the start of the invocation
+HStartE(u, empty) ==
   /\ pend[u] # None /\ hs[u] = "idle"
   /\ hdata' = [hdata EXCEPT ![u] = pend[u]] /\ pend' = [pend EXCEPT ![u] = None]
   /\ hs' = [hs EXCEPT ![u] = "run"]
   /\ ninv' = IF SoleDrainer(u) THEN [ninv EXCEPT ![u] = Min(@ + 1, MaxWrites + 3)] ELSE ninv
-  /\ viol' = IF SoleDrainer(u) /\ avail = 0 /\ ~hup THEN viol \cup {"empty_at_start"} ELSE viol
-  /\ UNCHANGED <<ust, uarm, susp, canc, nsusp, ncanc, uncons, kvars, evars, dvars, mvars>>
+  /\ viol' = IF SoleDrainer(u) /\ empty THEN viol \cup {"empty_at_start"} ELSE viol
+  /\ UNCHANGED <<ust, uarm, susp, canc, nsusp, ncanc, nrecr, uncons, enabler, evars, dvars, mvars>> /\ KNone
+HStartRaw(u) == HStartE(u, avail = 0 /\ ~hup)
 HStart(u) == ~susp[u] /\ ~canc[u] /\ HStartRaw(u)
 \* what the handler does to the descriptor: a draining reader reads it empty; a writer may fill the send buffer
 HBody(u) ==
@@ -302,24 +351,24 @@ HBody(u) ==
   /\ \/ u \in Drainers /\ avail' = 0 /\ UNCHANGED <<space, nf>>
      \/ u \in Writers /\ nf < MaxFills /\ space /\ space' = FALSE /\ nf' = nf + 1 /\ UNCHANGED avail
   /\ hs' = [hs EXCEPT ![u] = "done"]
-  /\ UNCHANGED <<hup, nw, ust, uarm, pend, hdata, susp, canc, nsusp, ncanc, kvars, dvars, mvars, gvars>>
-HEnd(u) ==
-  /\ hs[u] = "done" \/ (hs[u] = "run" /\ u \notin Drainers)
+  /\ UNCHANGED <<hup, nw, ust, uarm, pend, hdata, susp, canc, nsusp, ncanc, nrecr, dvars, mvars, gvars>> /\ KNone
+HEndRaw(u) ==
+  /\ hs[u] # "idle"
   /\ hs' = [hs EXCEPT ![u] = "idle"] /\ hdata' = [hdata EXCEPT ![u] = None]
-  /\ UNCHANGED <<ust, uarm, pend, susp, canc, nsusp, ncanc, kvars, evars, dvars, mvars, gvars>>
+  /\ UNCHANGED <<ust, uarm, pend, susp, canc, nsusp, ncanc, nrecr, evars, dvars, mvars, gvars>> /\ KNone
+HEnd(u) == (hs[u] = "done" \/ u \notin Drainers) /\ HEndRaw(u)
 
-MgrStep == EpollWait \/ BeginIn \/ BeginOut \/ BeginHup \/ Rearm
-           \/ \E u \in Unotes : Register(u) \/ MergeUnote(u) \/ MergeHup(u) \/ ResumeMux(u) \/ Unregister(u)
+MergeStep == BeginIn \/ BeginOut \/ BeginHup \/ HupDel \/ Rearm \/ \E u \in Unotes : MergeUnote(u) \/ MarkDelete(u) \/ MergeHup(u)
+MgrStep == EpollWait \/ MergeStep \/ \E u \in Unotes : Register(u) \/ ResumeMux(u) \/ Unregister(u)
 SrcStep(u) == HStart(u) \/ HBody(u) \/ HEnd(u) \/ AckDelete(u)
 EnvStep == PeerWrite \/ PeerDrain \/ PeerClose
-           \/ \E u \in Unotes : Activate(u) \/ Suspend(u) \/ Cancel(u)
+           \/ \E u \in Unotes : Activate(u) \/ Suspend(u) \/ Cancel(u) \/ Recreate(u)
 Next == MgrStep \/ EnvStep \/ \E u \in Unotes : SrcStep(u) \/ ResumeSrc(u)
 
 Spec == Init /\ [][Next]_vars
 \* the manager and the target queues keep running; a suspended source is resumed; the peer drains what we sent.
 \* The manager serves its queue in FIFO order and polls the kernel in between: each of its idle-time choices gets
 \* its turn although the others keep disabling it (strong fairness per choice).
-MergeStep == BeginIn \/ BeginOut \/ BeginHup \/ Rearm \/ \E u \in Unotes : MergeUnote(u) \/ MergeHup(u)
 FairSpec == Spec /\ WF_vars(MergeStep) /\ SF_vars(EpollWait) /\ WF_vars(PeerDrain)
             /\ \A u \in Unotes : /\ SF_vars(Register(u)) /\ SF_vars(ResumeMux(u)) /\ SF_vars(Unregister(u))
                                 /\ WF_vars(SrcStep(u)) /\ WF_vars(ResumeSrc(u))
@@ -332,27 +381,33 @@ CtlMaskIsArmedSet == "ctlmask" \notin viol
 KernelMatchesMux == (Quiet /\ dmn /\ kreg) => (ken /\ kmask = Armed)
 \* (2) disarmed <=> an event of that direction was delivered to a linked unote which has not re-armed yet
 DisarmedImpliesUnconsumed ==
-  Quiet => \A d \in dDis : \A u \in members : (Dir(u) = d /\ ust[u] = "reg") => uncons[u]
+  (Quiet /\ ListFix) => \A d \in dDis : \A u \in members : (Dir(u) = d /\ ust[u] = "reg") => uncons[u]
 UnconsumedImpliesDisarmed ==
   (Quiet /\ ~Fix) => \A u \in members : (ust[u] = "reg" /\ uncons[u]) => Dir(u) \in dDis
 \* a direction is enabled in the kernel only if no delivered event of that direction is still unconsumed
 \* (holds in EVERY state, also inside _dispatch_event_merge_fd: ONESHOT keeps the entry disabled until the MOD)
 EnabledOnlyIfConsumed ==
   ~Fix => \A u \in members : (ust[u] = "reg" /\ uncons[u] /\ kreg /\ ken) => Dir(u) \notin kmask
-\* (3) no unote receives a second event while its previous one is pending or its handler is running
+\* (3) no unote receives a second event while its previous one is pending or its handler is running;
+\* "double_sibling": the direction had been re-enabled by ANOTHER unote of the same direction (its re-arm or
+\* its registration) - the per-direction disarm of the pinned code (Fix = FALSE) with two unotes of one direction
 NoDoubleDelivery == "double" \notin viol
+NoSiblingDoubleDelivery == "double_sibling" \notin viol
+\* a unote is linked in the list of its own direction and only ever handed events of that direction
+ListsMatchDirection == (\A u \in rl : Dir(u) = "in") /\ (\A u \in wl : Dir(u) = "out") /\ "wrongdir" \notin viol
 \* (4) the registration exists exactly while a unote is linked (the hang-up path deletes it early, once)
 RegistrationExact ==
   /\ dmn <=> (members # {})
   /\ kreg => dmn
   /\ (Quiet /\ ~hupDel) => (kreg <=> dmn)
-  /\ dmn => \A d \in Dirs : (d \in dEvents <=> \E u \in members : Dir(u) = d)
   /\ dDis \subseteq dEvents
+  /\ \A u \in Unotes : u \in members <=> ust[u] \in {"reg", "ndel"}
+EventsMatchLists == dmn => \A d \in Dirs : (d \in dEvents <=> ListOf(d) # {})
 \* API-level consequences (the oracles the driver evaluates on the real library)
 \* (for the one reader that consumes; a second reader may find that its sibling drained the descriptor first)
 ReadNeverZero == \A u \in Readers : (SoleDrainer(u) /\ hs[u] # "idle" /\ hdata[u] = 0) => hup   \* zero bytes only at end of file
 ReaderFindsData == "empty_at_start" \notin viol
-InvocationsLeWrites == \A u \in Unotes : SoleDrainer(u) => ninv[u] <= nw + (IF hup THEN 2 ELSE 0)
+InvocationsLeWrites == \A u \in Unotes : (SoleDrainer(u) /\ ~hup) => ninv[u] <= nw
 HandlerSerial == \A u \in Unotes : hs[u] # "idle" => hdata[u] # None
 
 \* liveness: a registered, not cancelled source whose direction is ready gets its handler invoked
